@@ -409,6 +409,133 @@ fn e2e_scenario(out: &mut Out, n: usize, offset_ms: u64, clients: usize, inject:
     out.count(&format!("shutdown wall time request->exit (glonaxd): {}", if ms <= 20 { "<=20 ms" } else if ms <= 100 { "<=100 ms" } else if ms <= 1000 { "<=1 s" } else { ">1 s" }));
 }
 
+struct SigCount(Cfg);
+impl Service<Cfg> for SigCount {
+    fn new(config: Cfg) -> Self {
+        SigCount(config)
+    }
+    async fn wait_io_sub(&mut self, _command_tx: CommandSender, mut signal_rx: SignalReceiver) {
+        loop {
+            match signal_rx.recv().await {
+                Ok(o) => {
+                    self.0.shared.svc[0].setup.fetch_add(1, Ordering::SeqCst);
+                    // what only the RECEIVE task can publish: a measurement decoded from a unit frame
+                    if matches!(o, Object::Rotator(_)) {
+                        self.0.shared.svc[0].body.fetch_add(1, Ordering::SeqCst);
+                    }
+                }
+                Err(tokio::sync::broadcast::error::RecvError::Lagged(_)) => {}
+                Err(_) => return,
+            }
+        }
+    }
+}
+
+/// C06 under CONCURRENCY: the real NetworkAuthority of a network with the shipped mix of units under the real Runtime on a
+/// multi-thread executor (receive, tick - every millisecond - and command tasks really run in parallel); for `ms` milliseconds
+/// one thread floods the bus with unit frames while another floods the command channel; then three probes: the receive task
+/// still turns a unit frame into a signal, the tick task still emits frames, the command task still handles a command.
+/// (A stress: it cannot raise a false alarm on code that does not panic; what it catches is a panic that needs two tasks
+/// at the same instant.)
+pub fn concurrent_stress(out: &mut Out, ms: u64) {
+    crate::bus::root();
+    let rt = tokio_rt(true);
+    let shared = Arc::new(Shared { svc: vec![Counters::default()], sender: Mutex::new(None) });
+    let cfg = NetCfg {
+        address: 0x27,
+        name: [0, 2, 1, 255, 5, 5, 3],
+        drivers: vec![
+            hcu(0x4A, None),
+            DriverCfg { da: 0x6A, sa: None, timeout: Some(1000), vendor: "kübler".into(), product: "encoder".into() },
+            DriverCfg { da: 0x00, sa: Some(0x11), timeout: Some(250), vendor: "volvo".into(), product: "d7e".into() },
+            DriverCfg { da: 0x12, sa: None, timeout: Some(1000), vendor: "laixer".into(), product: "vcu".into() },
+        ],
+    };
+    let iface = format!("sd{}", IFACE.fetch_add(1, Ordering::SeqCst));
+    let bus = Arc::new({
+        let mut b = Bus::attach(&iface);
+        // the tick and command clones never read their sockets: do not wait for them
+        b.impatient = true;
+        b
+    });
+    let conf: NetworkConfig = toml::from_str(&cfg.toml(&iface)).expect("network config parses");
+    let (recv_ok, tick_ok, cmd_ok) = rt.block_on(async {
+        let mut runtime = glonax::Runtime::default();
+        runtime.schedule_io_sub_service::<ProdOnly, Cfg>(Cfg { idx: 0, shared: shared.clone() });
+        runtime.schedule_io_sub_service::<SigCount, Cfg>(Cfg { idx: 0, shared: shared.clone() });
+        runtime.schedule_net_service::<NetworkAuthority, NetworkConfig>(conf.clone(), Duration::from_micros(if ms % 2 == 0 { 50 } else { 1000 }));
+        tokio::time::sleep(Duration::from_millis(50)).await;
+        let tx = shared.sender.lock().unwrap().clone().expect("command sender");
+        let stop = Arc::new(std::sync::atomic::AtomicBool::new(false));
+        let (b2, st2) = (bus.clone(), stop.clone());
+        let flood_bus = std::thread::spawn(move || {
+            let frames = [
+                Bus::raw(0x18FFAA6A | 0x8000_0000, 8, &[0x54, 0x06, 0, 0, 0, 0, 0, 0]),
+                Bus::raw(0x18FF084A | 0x8000_0000, 8, &[0x14, 0xFF, 1, 0xFF, 1, 0, 0, 0]),
+                Bus::raw(0x0CF00400 | 0x8000_0000, 8, &[0xF0, 0x7D, 0x80, 0xE0, 0x2E, 0xFF, 0xFF, 0xFF]),
+                Bus::raw(0x18FF0812 | 0x8000_0000, 8, &[0x14, 0xFF, 0, 0xFF, 1, 0, 0, 0]),
+            ];
+            let mut k = 0usize;
+            while !st2.load(Ordering::SeqCst) {
+                b2.inject(&frames[k % frames.len()]);
+                k += 1;
+            }
+        });
+        let (tx2, st3) = (tx.clone(), stop.clone());
+        let flood_cmd = std::thread::spawn(move || {
+            let mut k = 0u32;
+            while !st3.load(Ordering::SeqCst) {
+                let _ = tx2.send(match k % 3 {
+                    0 => Object::Motion(Motion::StraightDrive((k % 2000) as i16)),
+                    1 => Object::Engine(glonax::core::Engine::from_rpm(1000 + (k % 900) as u16)),
+                    _ => Object::Motion(Motion::StopAll),
+                });
+                k += 1;
+                if k % 64 == 0 {
+                    std::thread::sleep(Duration::from_micros(200));
+                }
+            }
+        });
+        tokio::time::sleep(Duration::from_millis(ms)).await;
+        stop.store(true, Ordering::SeqCst);
+        let _ = flood_bus.join();
+        let _ = flood_cmd.join();
+        tokio::time::sleep(Duration::from_millis(100)).await;
+        // probe 1: the receive task turns a unit frame into a signal
+        let before = shared.svc[0].body.load(Ordering::SeqCst);
+        let mut recv_ok = false;
+        for _ in 0..20 {
+            bus.inject(&Bus::raw(0x18FFAA6A | 0x8000_0000, 8, &[0x10, 0x27, 0, 0, 0, 0, 0, 0]));
+            tokio::time::sleep(Duration::from_millis(25)).await;
+            if shared.svc[0].body.load(Ordering::SeqCst) > before {
+                recv_ok = true;
+                break;
+            }
+        }
+        // probe 2: the tick task emits frames
+        let _ = bus.sync();
+        tokio::time::sleep(Duration::from_millis(100)).await;
+        let tick_ok = !bus.sync().is_empty();
+        // probe 3: the command task handles a command (a motion reset appears on the bus only through a command)
+        let mut cmd_ok = false;
+        for _ in 0..20 {
+            let _ = tx.send(Object::Motion(Motion::ResetAll));
+            tokio::time::sleep(Duration::from_millis(25)).await;
+            if bus.sync().iter().any(|r| r[8..13] == [0x5A, 0x43, 0xFF, 0xFF, 0x01]) {
+                cmd_ok = true;
+                break;
+            }
+        }
+        (recv_ok, tick_ok, cmd_ok)
+    });
+    rt.shutdown_background();
+    if std::env::var("VERIF_SHOW_PANICS").is_ok() {
+        eprintln!("stress {} ms: {} signals seen", ms, shared.svc[0].setup.load(Ordering::SeqCst));
+    }
+    out.case(&format!("live {} {}", cfg.tok(), ms), &format!("recv={} tick={} cmd={}", recv_ok as u8, tick_ok as u8, cmd_ok as u8), true);
+    out.count("concurrent flood of the bus and of the command channel, then liveness probes");
+}
+
 /// C20 through the REAL daemon: glonaxd (built with glonax/verif) started on a generated configuration with 1..3 networks
 /// whose driver lists have 0..3 entries (known and unknown pairs); per network: the address claim it announces at
 /// start-up, its answer to a SoftwareIdentification request and to an AddressClaimed request addressed to it.
